@@ -277,7 +277,15 @@ theorem decPayload_of_enc (hr : RecOk S g r)
                 have hrest' : rest = [] := hrest ⟨_, _, _, _, hk⟩
                 subst hrest'
                 have := fill_dec hr.law hne hg hplain
-                simp [this, hss, bind, Except.bind, arraySize, hsum, hmax]
+                cases key with
+                | none => simp [this, hss, bind, Except.bind, arraySize, hsum, hmax]
+                | some k =>
+                  simp only at he
+                  obtain ⟨keys, hkeys, hk2⟩ := bind_eq_ok.mp he
+                  split at hk2
+                  · rename_i hasc
+                    simp [this, hss, bind, Except.bind, arraySize, hsum, hmax, hkeys, hasc]
+                  · cases hk2
             · have hal' : (align != 0) = true := by simp [hal]
               have hapos : 0 < align := Nat.pos_of_ne_zero hal
               simp only [hal', if_true] at he
